@@ -144,7 +144,8 @@ class TimeRange(object):
             return copy.deepcopy(self).make_absolute(p1_t0=p1_t0)
 
         if p1_t0 and not self.p1_t0:
-            self.p1_t0 = p1_t0
+            # Keep our own copy: the caller's Timestamp object may be modified in place later (e.g., `t += dt`).
+            self.p1_t0 = Timestamp(p1_t0)
 
         if not self.absolute:
             if not self.p1_t0:
@@ -163,7 +164,7 @@ class TimeRange(object):
 
     def intersect(self, other: 'TimeRange', in_place: bool = True) -> 'TimeRange':
         if not in_place:
-            return copy.copy(self).intersect(other)
+            return copy.deepcopy(self).intersect(other)
 
         # If either range is absolute, enforce that both ranges are absolute before intersecting.
         if self.absolute and not other.absolute:
@@ -185,7 +186,7 @@ class TimeRange(object):
         # Update metadata.
         self._range_specified = self.start is not None or self.end is not None
         if not self.p1_t0:
-            self.p1_t0 = other.p1_t0
+            self.p1_t0 = Timestamp(other.p1_t0)
 
         return self
 
@@ -233,7 +234,9 @@ class TimeRange(object):
                 p1_time = p1_time_or_none
 
             if p1_time and not self.p1_t0:
-                self.p1_t0 = p1_time
+                # Store the value, not the message's own Timestamp object: if the caller reuses the message and advances
+                # its time in place (`message.p1_time += dt`), t0 must not move with it.
+                self.p1_t0 = Timestamp(p1_time)
 
         # Shortcut if no range is specified.
         if not self._range_specified:
